@@ -175,8 +175,11 @@ def cmd_check(pid, tier, seed):
         # vacuity guard: the cover points recorded for this harness on the reference run (lib/expected.json) must be
         # satisfied; a shared check function may carry cover points that a small instance cannot reach - those were
         # unsatisfiable on the reference run as well and are not demanded
-        wanted_covers = set(h.get("covers", []))
-        unsat = [c for c in cov if c["verdict"] != "satisfied" and (not wanted_covers or c["name"] in wanted_covers)]
+        # (a case-restricted harness - e.g. the hostile-peer cases of C18 - shares its check function with the general one and
+        # reaches none of the shared cover points: its recorded list is empty and nothing is demanded; its own vacuity guard is
+        # that every named obligation must be reachable, below)
+        wanted_covers = None if h.get("covers") is None else set(h["covers"])
+        unsat = [c for c in cov if c["verdict"] != "satisfied" and (wanted_covers is None or c["name"] in wanted_covers)]
         covers_total += len(cov)
         covers_sat += len(cov) - len(unsat)
         if unsat and r["status"] == "ok":
@@ -184,7 +187,7 @@ def cmd_check(pid, tier, seed):
         unreach = [c for c in nchecks if c["verdict"] == "unreachable" and c["name"] in set(h.get("obligations", []))]
         if unreach and r["status"] == "ok":
             undecided.append("harness %s: named obligation(s) unreachable (vacuous): %s" % (name, "; ".join(c["name"] for c in unreach)))
-        wantc = set(h.get("covers", []))
+        wantc = set(h.get("covers") or [])
         havec = {c["name"] for c in cov}
         if wantc - havec and r["status"] != "undecided":
             undecided.append("harness %s: declared cover point(s) missing: %s" % (name, ", ".join(sorted(wantc - havec))))
